@@ -652,14 +652,33 @@ def translate_delete_detached():
             "super().delete_detached()"]
     if got != want:
         raise TranslatorError(f"Workflow.delete_detached changed: {got}")
-    src = ast.unparse(find_function(tree, "mark_dir_to_be_deleted", cls="Workflow"))
-    if not _has(src, "path = Path(path).normpath()\nif path != '.':\n    self.to_be_deleted[path + os.sep] = None"):
-        raise TranslatorError("Workflow.mark_dir_to_be_deleted changed")
+    got = [_ws(ast.unparse(st)) for st in body_without_docstring(find_function(tree, "mark_dir_to_be_deleted", cls="Workflow"))]
+    plain = ["path = Path(path).normpath()", _ws("if path != '.':\n    self.to_be_deleted[path + os.sep] = None")]
+    skipping = ["path = Path(path).normpath()",
+                _ws("if path != '.' and self._find_owning_static_tree(path) is None:\n"
+                    "    self.to_be_deleted[path + os.sep] = None")]
+    skipping2 = ["path = Path(path).normpath()",
+                 _ws("if path != '.' and self._find_owning_static_tree(path + os.sep) is None:\n"
+                     "    self.to_be_deleted[path + os.sep] = None")]
+    # _find_owning_static_tree either appends the separator itself or expects it from the caller
+    src = ast.unparse(find_function(tree, "_find_owning_static_tree", cls="Workflow"))
+    appends = _has(src, "path = Path(path) / ''")
+    consts = [n.value for n in ast.walk(find_function(tree, "_find_owning_static_tree", cls="Workflow"))
+              if isinstance(n, ast.Constant) and isinstance(n.value, str)]
+    if "SELECT i, label FROM node WHERE kind = 'st' AND NOT detached AND label = substr(?, 1, length(label))" not in consts:
+        raise TranslatorError("Workflow._find_owning_static_tree: query changed")
+    if got == plain:
+        return False
+    if got == skipping and appends:
+        return True
+    if got == skipping2 and not appends:
+        return True
+    raise TranslatorError(f"Workflow.mark_dir_to_be_deleted changed: {got}")
 
 
 def generate():
     en = _enums()
-    translate_delete_detached()
+    skips_trees = translate_delete_detached()
     fs = en["fs"]
     guards, calls = translate_finalize(en)
     bd_vol, bd_hashed = translate_before_delete()
@@ -726,6 +745,9 @@ def generate():
         f"Definition finalize_guards : list guard := [{'; '.join(guards)}].",
         f"Definition finalize_cleanup_calls : list cleanup_call := [{'; '.join(calls)}].",
         "",
+        "(* workflow.py Workflow.mark_dir_to_be_deleted: directories owned by an attached static tree are skipped? *)",
+        f"Definition mark_dir_skips_static_trees : bool := {'true' if skips_trees else 'false'}.",
+        "",
         "(* file.py File.before_delete *)",
         f"Definition bd_volatile_states : list N := {S(bd_vol)}.",
         f"Definition bd_hashed_states : list N := {S(bd_hashed)}.",
@@ -771,5 +793,6 @@ def generate():
     lines.append("")
     facts = {"guards": guards, "calls": calls, "set_sites": set_sites, "sql_writers": sql_kinds,
              "declare_sites": declare_sites, "create_sites": create_sites, "removal_sites": sites,
-             "callers": sorted(cl), "fs": fs}
+             "callers": sorted(cl), "fs": fs,
+             "mark_dir_skips_static_trees": skips_trees}
     return "\n".join(lines), facts
